@@ -140,3 +140,23 @@ Theorem machine_ids_roundtrip :
                                  backend_to_id (backend_of_id (snd e)) = snd e) /\
   (forall name, lookup name machine_ids = None -> backend_of_id (backend_to_id name) = backend_default_name).
 Proof. exact (table_ok_spec _ _ _ machine_table_ok). Qed.
+
+(** * pointing angles: every unit, every value (exact rationals; [r] = degrees per radian is arbitrary) *)
+Require Import QArith.
+Lemma pointing_status :
+  if pointing_ok return Prop
+  then forall r zen az, fst (pointing_roundtrip r zen az) == deg_of r zen /\ snd (pointing_roundtrip r zen az) == deg_of r az
+  else (forall r zen az, snd zen = UDeg -> snd az = UDeg ->
+          (za_start_attr =? 0)%Z && (az_start_attr =? 1)%Z && (zenith_read_key =? 0)%Z && (azimuth_read_key =? 1)%Z = true ->
+          fst (pointing_roundtrip r zen az) == deg_of r zen /\ snd (pointing_roundtrip r zen az) == deg_of r az)
+       /\ ~ (fst (pointing_roundtrip 57 zen_w az_w) == deg_of 57 zen_w /\ snd (pointing_roundtrip 57 zen_w az_w) == deg_of 57 az_w).
+Proof.
+  remember pointing_ok as b eqn:E. vm_compute in E. subst b. cbv iota.
+  first [ intros r zen az; unfold pointing_roundtrip, za_start_written, az_start_written; cbn; split; reflexivity
+        | split;
+          [ intros r [x u] [y w] Hu Hw H; cbn in Hu, Hw; subst u w;
+            unfold pointing_roundtrip, za_start_written, az_start_written, angle_written, deg_of in *; revert H;
+            destruct (za_start_attr =? 0)%Z, (az_start_attr =? 1)%Z, (zenith_read_key =? 0)%Z, (azimuth_read_key =? 1)%Z;
+            cbn; try discriminate; intros _; destruct za_start_in_deg, az_start_in_deg; cbn; split; ring
+          | vm_compute; intros [H1 H2]; try discriminate H1; try discriminate H2 ] ].
+Qed.
